@@ -360,7 +360,7 @@ theorem execCached_sim (P : NodeD → AL Val → Prop) (env : KeyEnv) (exec exec
 def StepSim : StepOut → StepOut → Prop
   | .ok ns l, .ok ns' l' => ns = ns' ∧ LogRel l l'
   | .fail e ps l, .fail e' ps' l' => e = e' ∧ ps = ps' ∧ LogRel l l'
-  | .pause p l, .pause p' l' => p = p' ∧ LogRel l l'
+  | .pause p ps l, .pause p' ps' l' => p = p' ∧ ps = ps' ∧ LogRel l l'
   | _, _ => False
 
 theorem stepSync_log_prefix (nested : Nested) (sem : Sem) (gi : Nat) (g : GraphD) (runSpan : Span) (k : Nat)
@@ -471,7 +471,7 @@ theorem stepSyncCached_sim (P : NodeD → AL Val → Prop) (env : KeyEnv) (exec 
           else [cacheHitEv (nodeSpanOf runSpan k nd) runSpan nd (keyOf env nd inputs)]) = mid at hmid ⊢
       cases hp : u.pause with
       | some p =>
-        exact ⟨⟨rfl, ((hlr.append (LogRel.refl _)).append hmid).append (LogRel.refl _)⟩, hinv'⟩
+        exact ⟨⟨rfl, rfl, ((hlr.append (LogRel.refl _)).append hmid).append (LogRel.refl _)⟩, hinv'⟩
       | none =>
         cases hres : u.res with
         | error e =>
@@ -561,7 +561,7 @@ theorem runLoopCached_sim (P : NodeD → AL Val → Prop) (env : KeyEnv) (exec :
             obtain ⟨rfl, hl⟩ := hsim
             exact ih _ _ _ _ _ hinv1 (hlr.append hl) hinj
           | fail _ _ _ => exact hsim.elim
-          | pause _ _ => exact hsim.elim
+          | pause _ _ _ => exact hsim.elim
         | fail e ps l =>
           have hinjs : CallsInj env P gi (callsOf l) :=
             hinj.mono (by intro x hx; simp [LoopOut.log, callsOf_append, hx])
@@ -571,14 +571,14 @@ theorem runLoopCached_sim (P : NodeD → AL Val → Prop) (env : KeyEnv) (exec :
             obtain ⟨rfl, rfl, hl⟩ := hsim
             exact ⟨⟨rfl, rfl, rfl, hlr.append hl⟩, hinv1⟩
           | ok _ _ => exact hsim.elim
-          | pause _ _ => exact hsim.elim
-        | pause p l =>
+          | pause _ _ _ => exact hsim.elim
+        | pause p ps l =>
           have hinjs : CallsInj env P gi (callsOf l) :=
             hinj.mono (by intro x hx; simp [LoopOut.log, callsOf_append, hx])
           obtain ⟨hsim, hinv1⟩ := hs hinjs
           cases C1 with
-          | pause p' l' =>
-            obtain ⟨rfl, hl⟩ := hsim
+          | pause p' ps' l' =>
+            obtain ⟨rfl, rfl, hl⟩ := hsim
             exact ⟨⟨rfl, rfl, rfl, hlr.append hl⟩, hinv1⟩
           | ok _ _ => exact hsim.elim
           | fail _ _ _ => exact hsim.elim
@@ -980,7 +980,7 @@ theorem StateSim.putDec {nsc nsu : GState} (h : StateSim nsc nsu) (n : Name) (d 
 def StepSimB : StepOut → StepOut → Prop
   | .ok ns l, .ok ns' l' => StateSim ns ns' ∧ LogRelR l l'
   | .fail e ps l, .fail e' ps' l' => e = e' ∧ StateSim ps ps' ∧ LogRelR l l'
-  | .pause p l, .pause p' l' => p = p' ∧ LogRelR l l'
+  | .pause p ps l, .pause p' ps' l' => p = p' ∧ StateSim ps ps' ∧ LogRelR l l'
   | _, _ => False
 
 /-- ONE SUPERSTEP, general case: no hypothesis on `None` decisions; the ready nodes have distinct names
@@ -1052,7 +1052,7 @@ theorem stepSyncCached_simB (P : NodeD → AL Val → Prop) (env : KeyEnv) (exec
         fun nd' h => hrs nd' (List.mem_cons_of_mem _ h)
       cases hp : u.pause with
       | some p =>
-        exact ⟨⟨rfl, ((hlr.append (LogRelR.refl _)).append hmid).append (LogRelR.refl _)⟩, hinv'⟩
+        exact ⟨⟨rfl, hs, ((hlr.append (LogRelR.refl _)).append hmid).append (LogRelR.refl _)⟩, hinv'⟩
       | none =>
         cases hres : u.res with
         | error e =>
@@ -1214,7 +1214,7 @@ theorem runLoopCached_simB (P : NodeD → AL Val → Prop) (env : KeyEnv) (exec 
               obtain ⟨hns, hl⟩ := hsim
               exact ih _ _ _ _ _ _ hinv1 hns (hlr.append hl) hinj
             | fail _ _ _ => exact hsim.elim
-            | pause _ _ => exact hsim.elim
+            | pause _ _ _ => exact hsim.elim
           | fail e ps l =>
             have hinjs : CallsInj env P gi (callsOf l) :=
               hinj.mono (by intro x hx; simp [LoopOut.log, callsOf_append, hx])
@@ -1224,15 +1224,15 @@ theorem runLoopCached_simB (P : NodeD → AL Val → Prop) (env : KeyEnv) (exec 
               obtain ⟨rfl, hps, hl⟩ := hsim
               exact ⟨⟨rfl, hps, rfl, hlr.append hl⟩, hinv1⟩
             | ok _ _ => exact hsim.elim
-            | pause _ _ => exact hsim.elim
-          | pause p l =>
+            | pause _ _ _ => exact hsim.elim
+          | pause p ps l =>
             have hinjs : CallsInj env P gi (callsOf l) :=
               hinj.mono (by intro x hx; simp [LoopOut.log, callsOf_append, hx])
             obtain ⟨hsim, hinv1⟩ := hst hinjs
             cases C1 with
-            | pause p' l' =>
-              obtain ⟨rfl, hl⟩ := hsim
-              exact ⟨⟨rfl, hrs, rfl, hlr.append hl⟩, hinv1⟩
+            | pause p' ps' l' =>
+              obtain ⟨rfl, hps, hl⟩ := hsim
+              exact ⟨⟨rfl, hps, rfl, hlr.append hl⟩, hinv1⟩
             | ok _ _ => exact hsim.elim
             | fail _ _ _ => exact hsim.elim
 
